@@ -134,6 +134,40 @@ pub fn run(a: &Args) {
             }
         } }
     }
+    // the other instantiations of the value type (the model is Val<i32,f64>): every operator x a boundary catalogue of
+    // the instantiation, applied directly and through parse-time folding, must not panic (results are not compared)
+    let mut other_apps = 0u64;
+    macro_rules! inst { ($I:ty, $F:ty, $label:expr) => {{
+        let ops2 = ValOpsFactory::<$I, $F>::make();
+        let bits = <$I>::BITS;
+        let two_pow = (2.0 as $F).powi(bits as i32 - 1);
+        let mut cat2: Vec<Val<$I, $F>> = vec![];
+        for i in [<$I>::MIN, <$I>::MIN + 1, -1, 0, 1, 2, 3, 13, 21, 31, 32, 33, 63, 64, 65, 127, <$I>::MAX - 1, <$I>::MAX, <$I>::MAX / 2 + 1, (1 as $I) << (bits / 2 - 1), ((1 as $I) << (bits / 2)) - 1] { cat2.push(Val::Int(i)); }
+        for f in [<$F>::NAN, <$F>::INFINITY, <$F>::NEG_INFINITY, 0.0, -0.0, 0.5, -2.5, 1.0, two_pow, -two_pow, two_pow * 2.0, -two_pow * 2.0, two_pow * (1.0 - <$F>::EPSILON), -two_pow * (1.0 + 2.0 * <$F>::EPSILON), two_pow * (1.0 + 2.0 * <$F>::EPSILON), <$F>::MAX, <$F>::MIN, <$F>::MIN_POSITIVE, <$I>::MAX as $F, <$I>::MIN as $F] { cat2.push(Val::Float(f)); }
+        cat2.push(Val::Bool(true)); cat2.push(Val::Bool(false)); cat2.push(Val::None); cat2.push(Val::Error(exmex::ExError::new("e")));
+        for n in 0..5usize { cat2.push(Val::Array((0..n).map(|k| k as $F * 1.5 - 1.0).collect())); }
+        for op in &ops2 {
+            let name = op.repr();
+            if let Ok(b) = op.bin() { for x in &cat2 { for y in &cat2 { other_apps += 1;
+                let (x2, y2, f) = (x.clone(), y.clone(), b.apply);
+                if std::panic::catch_unwind(move || { let _ = f(x2, y2); }).is_err() { panics += 1;
+                    cases.push(C { g: format!("VU {} VNone None", g_str(name)), note: format!("[{}] {x:?} {name} {y:?}", $label), family: "other-instantiations", ok: Some(false), onote: "the operator panicked".into(), answer: "PANIC".into() }); } } } }
+            if let Ok(u) = op.unary() { for x in &cat2 { other_apps += 1;
+                let x2 = x.clone();
+                if std::panic::catch_unwind(move || { let _ = u(x2); }).is_err() { panics += 1;
+                    cases.push(C { g: format!("VU {} VNone None", g_str(name)), note: format!("[{}] {name}({x:?})", $label), family: "other-instantiations", ok: Some(false), onote: "the operator panicked".into(), answer: "PANIC".into() }); } } }
+        }
+        // boundary literals folded while parsing
+        let lits2: Vec<String> = vec![format!("{}", <$I>::MAX), format!("{:?}", two_pow), format!("{:?}", two_pow * 2.0), "0".into(), "1".into(), "63".into(), "64".into(), "0.5".into(), "[1, 2, 3]".into()];
+        for op in &ops2 { let name = op.repr(); for x in &lits2 { for y in &lits2 {
+            let texts = if op.has_bin() { vec![format!("{x} {name} {y}"), format!("(0-{x}-1) {name} (0-{y})")] } else if op.has_unary() { vec![format!("{name}({x})"), format!("{name}(0-{x})"), format!("{name}(0-{x}-1)")] } else { vec![] };
+            for t in texts { other_apps += 1; let t2 = t.clone();
+                if std::panic::catch_unwind(move || { let e = exmex::parse_val::<$I, $F>(&t2); let _ = e.map(|e| { use exmex::Express; e.eval(&[]).map(|_| ()) }); }).is_err() { panics += 1;
+                    cases.push(C { g: format!("VU {} VNone None", g_str(name)), note: format!("[{}] parse_val({t:?}) / eval", $label), family: "other-instantiations", ok: Some(false), onote: "panicked".into(), answer: "PANIC".into() }); } }
+            if !op.has_bin() { break } } } }
+    }}; }
+    inst!(i64, f64, "Val<i64,f64>"); inst!(i32, f32, "Val<i32,f32>"); inst!(i64, f32, "Val<i64,f32>"); inst!(i16, f32, "Val<i16,f32>"); inst!(i128, f64, "Val<i128,f64>");
+    println!("other_instantiations_applications={other_apps}");
     // write shards
     std::fs::create_dir_all(&a.out).unwrap();
     let shard = a.shard.max(1);
@@ -287,6 +321,28 @@ pub fn run_c20(a: &Args) {
                 if bits != want { bad.push(format!("threads={nt} round={round} item={i}: {bits:x} vs sequential {want:x}")); } } }
             Err(_) => bad.push(format!("threads={nt} round={round}: a thread panicked")) } }
     } }
+    // many concurrent parses of texts in which names of constants and operators are continued by non-ASCII letters
+    // (`π` the constant beside `πr` the variable): every parse must give the variables and value of a sequential parse
+    {
+        let gtexts = ["2*π*r+πr", "sinφ+sin(φ)*π/2", "τ/τ0+expλ", "π*πr-τ0/τ", "cosα+cos(α)-PIα*PI", "Eε+E*ε"];
+        let reference: Vec<(Vec<String>, u64)> = gtexts.iter().map(|t| { let f = FlatEx::<f64>::parse(t).unwrap(); let n = f.var_names().len(); (f.var_names().to_vec(), f.eval(&(0..n).map(|q| 0.7 + q as f64).collect::<Vec<_>>()).unwrap().to_bits()) }).collect();
+        let reference = Arc::new(reference);
+        let iters = if a.thorough { 1500 } else { 400 };
+        for &nt in &[8usize, 16] {
+            let barrier = Arc::new(Barrier::new(nt));
+            let handles: Vec<_> = (0..nt).map(|tid| { let (b, rf) = (barrier.clone(), reference.clone()); std::thread::spawn(move || {
+                b.wait();
+                let mut bad: Vec<String> = vec![];
+                for it in 0..iters { let i = (it + tid) % gtexts.len();
+                    let got = if it % 2 == 0 { FlatEx::<f64>::parse(gtexts[i]).map(|f| { let n = f.var_names().len(); (f.var_names().to_vec(), f.eval(&(0..n).map(|q| 0.7 + q as f64).collect::<Vec<_>>()).map(|v| v.to_bits()).unwrap_or(0)) }) }
+                              else { DeepEx::<f64>::parse(gtexts[i]).map(|f| { let n = f.var_names().len(); (f.var_names().to_vec(), f.eval(&(0..n).map(|q| 0.7 + q as f64).collect::<Vec<_>>()).map(|v| v.to_bits()).unwrap_or(0)) }) };
+                    match got { Ok((names, bits)) => if names != rf[i].0 || (it % 2 == 0 && bits != rf[i].1) { if bad.len() < 3 { bad.push(format!("thread {tid} iteration {it} text {:?}: variables {names:?}, a sequential parse gives {:?}", gtexts[i], rf[i].0)); } },
+                                Err(e) => if bad.len() < 3 { bad.push(format!("thread {tid} iteration {it} text {:?}: rejected ({e}), a sequential parse accepts it", gtexts[i])); } }
+                }
+                bad }) }).collect();
+            for h in handles { match h.join() { Ok(b) => { histories += 1; bad.extend(b); } Err(_) => bad.push(format!("concurrent parses with {nt} threads: a thread panicked")) } }
+        }
+    }
     // histories across INSTANTIATIONS of the value type: an operator evaluated at Val<i32,_> first (where it overflows) and
     // at Val<i64,_> / Val<i128,_> afterwards must give the wider type's own result (no state shared between instantiations,
     // e.g. a table in a static of a generic function); literals folded at parse time and variables at evaluation time
@@ -757,4 +813,73 @@ pub fn run_c06t(a: &Args) {
     }
     println!("mode=c06t cases={} oracle_failures={}", cases.len(), cases.iter().filter(|c| !c.ok).count());
     std::process::exit(0);
+}
+
+/// C15 on a HANDLE-SIZED data type (oracle only): a value type that is three machine words (a Vec of words) with a counting
+/// Clone and custom operators.  eval_vec / eval_iter must give the value of eval, clone variable i exactly
+/// (occurrences - 1) times -- so not at all when it occurs once -- and never show an operator a moved-out placeholder.
+pub mod small_type {
+    use std::sync::atomic::{AtomicUsize, Ordering};
+    pub static CLONES: AtomicUsize = AtomicUsize::new(0);
+    #[derive(Debug, Default, PartialEq)]
+    pub struct W(pub Vec<u32>);
+    impl Clone for W { fn clone(&self) -> Self { CLONES.fetch_add(1, Ordering::SeqCst); W(self.0.clone()) } }
+    impl std::str::FromStr for W { type Err = std::num::ParseIntError; fn from_str(s: &str) -> Result<Self, Self::Err> { s.parse::<u32>().map(|n| W(vec![n])) } }
+    #[derive(Clone, Debug)] pub struct WOps;
+    impl exmex::MakeOperators<W> for WOps { fn make<'a>() -> Vec<exmex::Operator<'a, W>> { use exmex::{BinOp, Operator}; vec![
+        Operator::make_bin("+", BinOp { apply: |mut a, b| { a.0.extend(b.0); a }, prio: 0, is_commutative: false }),
+        Operator::make_bin("*", BinOp { apply: |a, b| W(a.0.iter().flat_map(|x| b.0.iter().map(move |y| x.wrapping_mul(31).wrapping_add(*y))).collect()), prio: 2, is_commutative: false }),
+        Operator::make_bin_unary("-", BinOp { apply: |mut a, b| { a.0.push(0); a.0.extend(b.0.into_iter().rev()); a }, prio: 1, is_commutative: false }, |mut a| { a.0.reverse(); a.0.push(7); a }),
+        Operator::make_unary("dup", |mut a| { let c = a.0.clone(); a.0.extend(c); a }) ] } }
+    exmex::literal_matcher_from_pattern!(WMatcher, r"^[0-9]+");
+    pub use exmex::MatchLiteral;
+}
+pub fn run_c15s(a: &Args) {
+    use exmex::prelude::*;
+    use small_type::*;
+    use std::sync::atomic::Ordering;
+    type FW = FlatEx<W, WOps, WMatcher>;
+    assert!(std::mem::size_of::<W>() <= 3 * std::mem::size_of::<usize>());
+    let mut r = Rng::new(a.seed ^ 0x155);
+    let mut texts: Vec<String> = ["x", "x+y", "x+y+x", "x*x", "x*y-z", "-x+dup(y)", "x+1", "2*x+x", "x-y*z+2", "dup(x)*dup(-x)", "a+b+c+d+e+f+g+h+i+j+k+l+m+n+o+p+q", "x*y+y*x+z", "1+2*3", "x+x+x+x+x"].iter().map(|s| s.to_string()).collect();
+    for _ in 0..a.n { let names = ["x", "y", "z", "w"]; let m = 1 + r.below(7); let mut t = String::new();
+        for k in 0..m { if k > 0 { t.push_str(["+", "*", "-"][r.below(3)]); } if r.chance(1, 5) { t.push_str("dup("); t.push_str(names[r.below(4)]); t.push(')'); } else if r.chance(1, 6) { t.push_str(&format!("{}", r.below(9))); } else { if r.chance(1, 5) { t.push('-'); } t.push_str(names[r.below(4)]); } }
+        texts.push(t); }
+    struct C { note: String, ok: bool, onote: String }
+    let mut cases: Vec<C> = vec![];
+    for t in &texts {
+        for wo in [false, true] {
+            let leaked: &'static str = Box::leak(t.clone().into_boxed_str());
+            let e = match if wo { FW::parse_wo_compile(leaked) } else { FW::parse(leaked) } { Ok(e) => e, Err(er) => { cases.push(C { note: format!("{t}"), ok: false, onote: format!("does not parse: {er}") }); continue } };
+            let names: Vec<String> = e.var_names().to_vec(); let n = names.len();
+            let vals: Vec<W> = (0..n).map(|k| W(vec![100 + k as u32, 200 + k as u32])).collect();
+            let c_before = CLONES.load(Ordering::SeqCst);
+            let want = e.eval(&vals);
+            let clones_borrowing = CLONES.load(Ordering::SeqCst) - c_before;
+            // occurrences of each variable among the nodes of the expression as it is (folded or not)
+            let printed = e.unparse().to_string();
+            let _ = printed;
+            let occ: Vec<usize> = { let toks: Vec<&str> = t.split(|c: char| !c.is_alphanumeric()).filter(|w| !w.is_empty()).collect(); names.iter().map(|nm| toks.iter().filter(|w| **w == nm.as_str()).count()).collect() };
+            // the borrowing evaluation clones every operand: every variable occurrence and every literal node
+            let n_literals = clones_borrowing.saturating_sub(occ.iter().sum::<usize>());
+            let allowed: usize = occ.iter().map(|o| o.saturating_sub(1)).sum::<usize>() + n_literals;
+            for route in ["eval_vec", "eval_iter"] {
+                let owned: Vec<W> = { let before = CLONES.load(Ordering::SeqCst); let v = vals.clone(); let _ = before; v };
+                let c0 = CLONES.load(Ordering::SeqCst);
+                let got = if route == "eval_vec" { e.eval_vec(owned) } else { e.eval_iter(owned.into_iter()) };
+                let clones = CLONES.load(Ordering::SeqCst) - c0;
+                let (mut ok, mut onote) = (true, String::new());
+                match (&got, &want) { (Ok(g), Ok(w)) => if g != w { ok = false; onote = format!("{route} gives {g:?}, eval gives {w:?}"); }, (Err(_), Err(_)) => (), _ => { ok = false; onote = format!("{route} gives {got:?}, eval gives {want:?}"); } }
+                if ok && got.is_ok() && clones != allowed { ok = false; onote = format!("{route} cloned {clones} times, the occurrences {occ:?} and {n_literals} literal nodes allow exactly {allowed}"); }
+                cases.push(C { note: format!("{route} of {}{t} with {n} variables", if wo { "uncompiled " } else { "" }), ok, onote });
+            }
+        }
+    }
+    std::fs::create_dir_all(&a.out).unwrap();
+    let mut f = std::io::BufWriter::new(std::fs::File::create(format!("{}/meta.json", a.out)).unwrap());
+    writeln!(f, "{{\"shard_size\": 1, \"n_shards\": 0, \"tables\": [[]], \"cases\": [").unwrap();
+    let items: Vec<String> = cases.iter().map(|c| format!("{{\"tb\": 0, \"family\": \"handle-sized-counting-type\", \"note\": {}, \"prog\": {}, \"size\": 3, \"nontrivial\": true, \"oracle_ok\": {}, \"oracle_note\": {}, \"answers\": [[\"ok\", {}]]}}",
+        json_str(&c.note), json_str(&c.note), c.ok, json_str(&c.onote), json_str(if c.ok { "yes" } else { "no" }))).collect();
+    writeln!(f, "{}\n]}}", items.join(",\n")).unwrap();
+    println!("mode=c15s cases={} oracle_failures={}", cases.len(), cases.iter().filter(|c| !c.ok).count());
 }
